@@ -19,7 +19,7 @@ from ..monitors import ModeWatch, EvalTracer
 
 glom = env.bind()
 from glom import (T, S, Auto, Fill, Match, Pipe, Coalesce, Switch, Val, Spec, Call, Assign, And, Or, Check, M, Invoke,  # noqa: E402
-                  GlomError, SKIP, glom as G)
+                  GlomError, SKIP, Iter, glom as G)
 from glom.grouping import Group  # noqa: E402
 
 META = {
@@ -108,6 +108,20 @@ class TreeGen:
                     if rng.random() < 0.5:
                         steps.append(Val(TARGET))
                     r = 'after-star-step-with-failing-argument'
+                if mode == 'auto' and rng.random() < 0.12:
+                    # a wrapper whose spec is evaluated LAZILY (an Iter pipeline drained by a later step of the chain): what is
+                    # nested in the wrapper is in the wrapper's mode whenever it happens to run
+                    m2 = rng.choice(['auto', 'fill', 'match'])
+                    inner = self.gen(0, m2, False, 'lazily-evaluated-inside-' + m2)
+                    lazy = rng.choice([lambda: Iter(inner), lambda: Iter().map(inner), lambda: Coalesce(Iter(inner), default='X')])()
+                    if rng.random() < 0.5:
+                        steps.append(WRAPPERS[m2](Pipe(Val([TARGET, TARGET]), lazy)))
+                    else:
+                        steps.append(Val([TARGET, TARGET]))      # (the wrapper directly around the lazy pipeline)
+                        steps.append(WRAPPERS[m2](lazy))
+                    steps.append(list)
+                    steps.append(Val(TARGET))
+                    r = 'after-%s-in-%s' % (m2, c)
                 sub = self.gen(depth - 1, mode, False, r)
                 steps.append(sub)
                 steps.append(Val(TARGET))   # restore the target for the next step
@@ -392,6 +406,9 @@ def arg_positions(lit):
         ('Switch-default', Switch([(M == 'never', Val(1))], default=lit), lambda r: r),
         ('Check-default', Check(type=str, default=lit), lambda r: r),
         ('Assign-value', (Assign(T['box'], lit), T['box']), lambda r: r),
+        # the destination does not exist yet: the value is still evaluated against the Assign's target
+        ('Assign-value-missing-path', (Assign(T['newbox']['deep'], lit, missing=dict), T['newbox']['deep']), lambda r: r),
+        ('Assign-value-missing-path-str', (Assign('nb.l1.l2', lit, missing=dict), 'nb.l1.l2'), lambda r: r),
     ]
 
 
